@@ -341,10 +341,12 @@ void XMLGrammarPoolImpl::deserializeGrammars(BinInputStream* const binIn)
         //
         if (StorerLevel != (unsigned int)XERCES_GRAMMAR_SERIALIZATION_LEVEL)
         {
-            XMLCh     StorerLevelChar[5];
-            XMLCh     LoaderLevelChar[5];
-            XMLString::binToText(StorerLevel,                          StorerLevelChar,   4, 10, memMgr);
-            XMLString::binToText(XERCES_GRAMMAR_SERIALIZATION_LEVEL,   LoaderLevelChar,   4, 10, memMgr);
+            // an unsigned int needs up to 10 decimal digits; with 4 the message
+            // formatting itself threw (IllegalArgumentException) for levels >= 10000
+            XMLCh     StorerLevelChar[17];
+            XMLCh     LoaderLevelChar[17];
+            XMLString::binToText(StorerLevel,                          StorerLevelChar,   16, 10, memMgr);
+            XMLString::binToText(XERCES_GRAMMAR_SERIALIZATION_LEVEL,   LoaderLevelChar,   16, 10, memMgr);
 
             ThrowXMLwithMemMgr2(XSerializationException
                     , XMLExcepts::XSer_Storer_Loader_Mismatch
